@@ -16,7 +16,8 @@ RULE = (
     "deadband (end,max); finite lists that are unsorted / duplicated / without 0 / single-element / "
     "fractional) and applies, one after another, the COMPLETE boundary grid b+d for every boundary b of "
     "its allowable set, d in {0, +-5e-4, +-(1e-3-1e-6), +-(1e-3+1e-6), +-2e-3}, plus random pilots, "
-    "directly or through ChargingNetwork.update_pilots, with or without a connected EV. Oracle: an "
+    "directly or through ChargingNetwork.update_pilots, with or without a connected EV, alone or next "
+    "to a neighbour station of the same class with equal min/max but another allowable set. Oracle: an "
     "independent acceptance predicate per class (guard band 1e-9 counted as ambiguous), state "
     "snapshots for the 'rejected changes nothing' clause, and acceptance of every advertised value "
     "(EVSE, network cache, Interface, InfrastructureInfo). Non-trivial = some pilot lies within 2e-3 A "
@@ -71,6 +72,24 @@ def build_evse(spec, sid="EV-se"):
     return FiniteRatesEVSE(sid, list(spec["rates"]))
 
 
+def twin_of(es):
+    """Spec of an EVSE of the same class with equal min_rate / max_rate but a different
+    allowable set, or None if the class has no such neighbour."""
+    if es["kind"] == "finite":
+        b = boundaries(es)
+        pos = [r for r in b if r > 0]
+        if len(pos) < 2:
+            return None
+        mid = (pos[0] + pos[-1]) / 2.0
+        rates = [pos[0], pos[-1]] + ([mid] if all(abs(mid - r) > 2e-3 for r in b) else [])
+        if sorted(set([0.0] + rates)) == b:
+            return None
+        return {"kind": "finite", "rates": rates}
+    if es["kind"] == "deadband" and es["end"] > 0.01:
+        return {"kind": "deadband", "end": es["end"] / 2.0, "max": es.get("max")}
+    return None
+
+
 class CountingBattery(Battery):
     """A user-defined battery (public extension point) that counts charge() calls."""
 
@@ -98,6 +117,11 @@ def prop(spec, rec):
     evse = build_evse(es)
     V, period = spec["voltage"], spec["period"]
     net = ChargingNetwork()
+    twin = twin_of(es) if spec.get("twin") else None
+    if twin is not None:
+        # a neighbour of the same class with the same minimum and maximum but another allowable
+        # set, registered first: what is advertised for a station must be that station's own set
+        net.register_evse(build_evse(twin, "EV-twin"), V, 0)
     net.register_evse(evse, V, 0)
     ev = None
     if spec["with_ev"]:
@@ -119,7 +143,7 @@ def prop(spec, rec):
         err = None
         try:
             if spec["via_network"]:
-                net.update_pilots(np.array([[p]]), 0, period)
+                net.update_pilots(np.array([[0.0], [p]] if twin is not None else [[p]]), 0, period)
             else:
                 evse.set_pilot(p, V, period)
         except Exception as e:  # noqa: BLE001
@@ -159,11 +183,22 @@ def prop(spec, rec):
     for v in allow:
         adv.append(("Interface.allowable_pilot_signals", v))
     info = iface.infrastructure_info()
-    adv.append(("InfrastructureInfo.max_pilot", info.max_pilot[0]))
-    adv.append(("InfrastructureInfo.min_pilot", info.min_pilot[0]))
-    for v in info.allowable_pilots[0]:
+    k = info.get_station_index("EV-se")
+    require(info.station_ids[k] == "EV-se" and k == (1 if twin is not None else 0), "station_index", lambda: "EV-se reported at index %r of %r" % (k, info.station_ids))
+    adv.append(("InfrastructureInfo.max_pilot", info.max_pilot[k]))
+    adv.append(("InfrastructureInfo.min_pilot", info.min_pilot[k]))
+    for v in info.allowable_pilots[k]:
         adv.append(("InfrastructureInfo.allowable_pilots", v))
-    require(bool(info.is_continuous[0]) == (es["kind"] != "finite"), "advertised_continuity", "InfrastructureInfo.is_continuous wrong")
+    for v in net.allowable_rates[k]:
+        adv.append(("ChargingNetwork.allowable_rates", v))
+    adv.append(("ChargingNetwork.max_pilot_signals", net.max_pilot_signals[k]))
+    require(bool(info.is_continuous[k]) == (es["kind"] != "finite"), "advertised_continuity", "InfrastructureInfo.is_continuous wrong")
+    if twin is not None:
+        labels.add("twin_station")
+        # the same holds after a JSON round trip of the network (the caches are stored)
+        net2 = ChargingNetwork.from_json(net.to_json())
+        for v in net2.allowable_rates[k]:
+            adv.append(("loaded ChargingNetwork.allowable_rates", v))
     for where, v in adv:
         v = float(v)
         if not math.isfinite(v):
@@ -204,6 +239,16 @@ def prop(spec, rec):
             err = e
         require(err is not None and type(err).__name__ == "StationOccupiedError", "occupied_refused", lambda: "plugin into occupied station: %r" % (err,))
         require(evse.ev is ev and net.get_ev("EV-se") is ev, "occupant_kept", "occupant replaced after refused plugin")
+        # ... also when the newcomer carries the occupant's session id (another object)
+        clone = EV(0, 10, 5.0, "EV-se", "sess-x", CountingBattery(10, 0, 10))
+        before = _snapshot(evse, ev)
+        err = None
+        try:
+            (net if spec["via_network"] else evse).plugin(clone)
+        except Exception as e:  # noqa: BLE001
+            err = e
+        require(err is not None and type(err).__name__ == "StationOccupiedError", "occupied_refused", lambda: "plugin of another EV object with the occupant's session id: %r" % (err,))
+        require(evse.ev is ev and _snapshot(evse, ev) == before, "occupant_kept", "occupant replaced or changed after a refused plugin with the same session id")
         labels.add("occupied_plugin")
 
     if near:
@@ -282,6 +327,7 @@ def cases(draw):
         "voltage": draw(st.sampled_from([120.0, 208.0, 240.0, 277.0])),
         "period": draw(st.sampled_from([1.0, 5.0, 15.0])),
         "pilots": pilots,
+        "twin": draw(st.booleans()),
     }
 
 
